@@ -7,14 +7,18 @@ All statements are for ALL finite graphs / ALL field lists / ALL names; nothing 
 
 What is proved here about the model (and tied to the code by the correspondence check of harness/c15.go):
   flatten_names_nodup, order_spec, ids_bfs, flatten_winners (dominance filter = documented winner rule on the
-  enumerated candidates), dup_embed_counterexample, lookup_exact_first, lookup_spec, fold_ascii, omit_spec.
-Kept as visible full statements (not proved): flatten_sound_full, flatten_complete_full, fallback_spec_full,
-bfs_fuel_suffices_full, ids_depth_monotone_full.
+  enumerated candidates), bfs_fuel_suffices (termination on every graph), enumerated_iff_reachable,
+  flatten_sound, flatten_complete (search = declarative all-paths rule, for error-free runs under NoDupEmbed),
+  ids_depth_monotone, dup_embed_counterexample (NoDupEmbed is necessary), lookup_exact_first, lookup_spec,
+  fold_ascii, match_spec, zero_spec, omitZeroStructFields_equiv, omit_spec, unknown_spec.
+fallback_spec and ids_depth_monotone (every run) are proved as well; no full statement of this file is left open.
 -/
 import JsonV.Lemmas.FieldsFinish
 import JsonV.Lemmas.FieldsFold
 import JsonV.Lemmas.FieldsLookup
 import JsonV.Lemmas.FieldsEscape
+import JsonV.Lemmas.FieldsOcc
+import JsonV.Lemmas.FieldsDepth
 
 namespace JsonV.Props.C15
 open JsonV JsonV.Model JsonV.Model.Fields JsonV.Spec.FieldRule JsonV.Lemmas.Fields
@@ -57,27 +61,192 @@ theorem flatten_winners (g : Graph) (root : StructId) (ix : List Nat) (o : Field
   · rintro ⟨f, hf, h1, h2⟩
     exact ⟨f, (mem_kept_iff _ (search_all_nodup g root) f).mpr hf, h1, h2⟩
 
-/-- FULL statements relating the search to the all-paths rule of `Spec/FieldRule.lean`; validated by the
-harness (implementation vs an independent Go implementation of the rule), not proved. -/
-def flatten_sound_full : Prop :=
-  ∀ (g : Graph) (root : StructId), (flatten g root).err = none → NoDupEmbed g root →
-    ∀ f ∈ (flatten g root).flattened, Winner (IsCand g root) ⟨f.index, f.opts⟩
+/-- `flatten_terminates`: the level-by-level search (fuel = number of struct types + 2) never stops for lack of
+fuel, on every type graph including recursive ones: each level either queues a visiting entry of a struct type
+not seen before, or queues nothing that can queue anything. -/
+theorem bfs_fuel_suffices (g : Graph) (root : StructId) : (search g root).queue = [] :=
+  search_queue_nil g root
 
-def flatten_complete_full : Prop :=
-  ∀ (g : Graph) (root : StructId), (flatten g root).err = none → NoDupEmbed g root →
-    ∀ c, Winner (IsCand g root) c → ∃ f ∈ (flatten g root).flattened, f.index = c.index ∧ f.opts = c.opts
+theorem nodup_map_inj {α β} [DecidableEq β] (f : α → β) : ∀ {l : List α}, (l.map f).Nodup → ∀ {a b}, a ∈ l → b ∈ l → f a = f b → a = b
+  | [], _, _, _, ha, _, _ => by cases ha
+  | x :: xs, hnd, a, b, ha, hb, hab => by
+    rw [List.map_cons, List.nodup_cons] at hnd
+    rcases List.mem_cons.mp ha with rfl | ha' <;> rcases List.mem_cons.mp hb with rfl | hb'
+    · rfl
+    · exact absurd (List.mem_map.mpr ⟨b, hb', hab.symm⟩) hnd.1
+    · exact absurd (List.mem_map.mpr ⟨a, ha', hab⟩) hnd.1
+    · exact nodup_map_inj f hnd.2 ha' hb' hab
 
-def fallback_spec_full : Prop :=
-  ∀ (g : Graph) (root : StructId), (flatten g root).err = none → NoDupEmbed g root →
-    ∀ ix, ((∃ f, (flatten g root).fallback = some f ∧ f.index = ix) ↔ FallbackWinner g root ix)
+/-- The enumeration lemma behind soundness and completeness (error-free run, `NoDupEmbed`):
+every enumerated field is a candidate of the all-paths rule with its true index path, and every candidate of the
+rule is enumerated or dominated by an enumerated field with the same options at a strictly smaller depth. -/
+theorem enumerated_iff_reachable (g : Graph) (root : StructId) (herr : (flatten g root).err = none) (hnd : NoDupEmbed g root) :
+    (∀ f ∈ (search g root).all, IsCand g root ⟨f.index, f.opts⟩) ∧
+    (∀ c, IsCand g root c → ∃ f ∈ (search g root).all, f.opts = c.opts ∧ (f.index = c.index ∨ f.index.length < c.index.length)) := by
+  obtain ⟨P, hF, _⟩ := final_of_search (g := g) (root := root) herr
+  exact ⟨fun f hf => hF.enumerated_sound f hf, fun c hc => hF.dominated hnd c hc⟩
 
-/-- The level-by-level search never stops for lack of fuel (`flatten_terminates`). -/
-def bfs_fuel_suffices_full : Prop :=
-  ∀ (g : Graph) (root : StructId), (search g root).queue = []
+/-- SOUNDNESS: in an error-free run on a graph without a struct-embedding type reached twice at its first depth,
+every resolved field is the winner of its name under the declarative all-paths rule. -/
+theorem flatten_sound (g : Graph) (root : StructId) (herr : (flatten g root).err = none) (hnd : NoDupEmbed g root) :
+    ∀ f ∈ (flatten g root).flattened, Winner (IsCand g root) ⟨f.index, f.opts⟩ := by
+  obtain ⟨P, hF, _⟩ := final_of_search (g := g) (root := root) herr
+  intro f hf
+  obtain ⟨f0, ⟨hf0, hw⟩, hi0, ho0⟩ := (flatten_winners g root f.index f.opts).mp ⟨f, hf, rfl, rfl⟩
+  rw [← hi0, ← ho0]
+  refine ⟨hF.enumerated_sound f0 hf0, ?_⟩
+  intro x hx hxn hxne
+  obtain ⟨x', hx', hxo, hxi⟩ := hF.dominated hnd x hx
+  have hname : x'.name = f0.name := by
+    show x'.opts.name = f0.opts.name
+    rw [hxo]; exact hxn
+  show Beats f0.index.length f0.opts.hasName x.index.length x.opts.hasName
+  by_cases heq : x' = f0
+  · rcases hxi with hxi | hxi
+    · exfalso; apply hxne
+      rw [← heq, hxo, hxi]
+    · exact Or.inl (by rw [← heq]; exact hxi)
+  · have hb := hw x' hx' hname heq
+    unfold Beats RField.depth RField.hasName at hb
+    rw [hxo] at hb
+    rcases hxi with hxi | hxi
+    · rw [hxi] at hb; exact hb
+    · rcases hb with hb | ⟨hb, _⟩
+      · exact Or.inl (by omega)
+      · exact Or.inl (by omega)
 
-/-- Discovery order is by non-decreasing depth. -/
-def ids_depth_monotone_full : Prop :=
-  ∀ (g : Graph) (root : StructId), (search g root).all.Pairwise (fun a b => a.depth ≤ b.depth)
+/-- COMPLETENESS: under the same hypotheses every winner of the declarative rule is resolved. -/
+theorem flatten_complete (g : Graph) (root : StructId) (herr : (flatten g root).err = none) (hnd : NoDupEmbed g root) :
+    ∀ c, Winner (IsCand g root) c → ∃ f ∈ (flatten g root).flattened, f.index = c.index ∧ f.opts = c.opts := by
+  obtain ⟨P, hF, _⟩ := final_of_search (g := g) (root := root) herr
+  intro c ⟨hc, hw⟩
+  obtain ⟨f0, hf0, ho0, hi0⟩ := hF.dominated hnd c hc
+  have hi : f0.index = c.index := by
+    rcases hi0 with hi0 | hi0
+    · exact hi0
+    · exfalso
+      have hb := hw ⟨f0.index, f0.opts⟩ (hF.enumerated_sound f0 hf0) (by show f0.opts.name = c.opts.name; rw [ho0])
+        (by intro h; rw [← h] at hi0; exact Nat.lt_irrefl _ hi0)
+      unfold Beats Cand.depth at hb
+      rcases hb with hb | ⟨hb, _⟩ <;> simp only at hb <;> omega
+  apply (flatten_winners g root c.index c.opts).mpr
+  refine ⟨f0, ⟨hf0, ?_⟩, hi, ho0⟩
+  intro x hx hxn hxne
+  have hcx : (⟨x.index, x.opts⟩ : Cand) ≠ c := by
+    intro h
+    apply hxne
+    have : x.index = f0.index := by rw [hi, ← h]
+    exact nodup_map_inj (·.index) hF.allND hx hf0 this
+  have hb := hw ⟨x.index, x.opts⟩ (hF.enumerated_sound x hx)
+    (by show x.opts.name = c.opts.name; rw [← ho0]; exact hxn) hcx
+  unfold Beats Cand.depth Cand.hasName at hb
+  unfold Beats RField.depth RField.hasName
+  rw [hi, ho0]
+  exact hb
+
+/-- Discovery order is by non-decreasing depth, in every run (also one that records an error). -/
+theorem ids_depth_monotone (g : Graph) (root : StructId) :
+    (search g root).all.Pairwise (fun a b => a.depth ≤ b.depth) :=
+  search_all_sorted g root
+
+/-- The embedded fallback selected by the search is the declarative one: the fallback candidate that is strictly
+shallower than every other fallback candidate (error-free run, `NoDupEmbed`). -/
+theorem fallback_spec (g : Graph) (root : StructId) (herr : (flatten g root).err = none) (hnd : NoDupEmbed g root) :
+    ∀ ix, ((∃ f, (flatten g root).fallback = some f ∧ f.index = ix) ↔ FallbackWinner g root ix) := by
+  obtain ⟨P, hF, hB⟩ := final_of_search (g := g) (root := root) herr
+  have hfb : (flatten g root).fallback =
+      match (search g root).fbs with
+      | [] => none
+      | [f] => some f
+      | f0 :: f1 :: _ => if f0.depth != f1.depth then some f0 else none := rfl
+  have hA : ∀ f ∈ (search g root).fbs, IsFallback g root f.index := fun f hf => hF.fb_sound hB f hf
+  have hD : ∀ jx, IsFallback g root jx → ∃ f ∈ (search g root).fbs, f.index = jx ∨ f.index.length < jx.length :=
+    fun jx hj => hF.fb_dominated hnd hB jx hj
+  have hND := hB.fbND
+  have hS := hB.fbSorted
+  rw [hfb]
+  generalize (search g root).fbs = fbs at hA hD hND hS
+  intro ix
+  constructor
+  · rintro ⟨f, hsel, rfl⟩
+    match fbs, hsel, hA, hD, hND, hS with
+    | [a], hsel, hA, hD, _, _ =>
+      simp only [Option.some.injEq] at hsel
+      subst hsel
+      refine ⟨hA a (List.mem_singleton.mpr rfl), ?_⟩
+      intro jx hj hne
+      obtain ⟨f', hf', h'⟩ := hD jx hj
+      rw [List.mem_singleton.mp hf'] at h'
+      rcases h' with h' | h'
+      · exact absurd h'.symm hne
+      · exact h'
+    | a :: b :: t, hsel, hA, hD, _, hS =>
+      by_cases hdep : (a.depth != b.depth) = true
+      · simp only [hdep, if_true, Option.some.injEq] at hsel
+        subst hsel
+        refine ⟨hA a (List.mem_cons_self ..), ?_⟩
+        have hS1 := List.pairwise_cons.mp hS
+        have hS2 := List.pairwise_cons.mp hS1.2
+        have hab : a.depth < b.depth := by
+          have h1 := hS1.1 b (List.mem_cons_self ..)
+          have h2 : a.depth ≠ b.depth := by simpa using hdep
+          omega
+        have hrest : ∀ x ∈ b :: t, a.depth < x.depth := by
+          intro x hx
+          rcases List.mem_cons.mp hx with rfl | hx
+          · exact hab
+          · have := hS2.1 x hx; omega
+        intro jx hj hne
+        obtain ⟨f', hf', h'⟩ := hD jx hj
+        rcases List.mem_cons.mp hf' with rfl | hf'
+        · rcases h' with h' | h'
+          · exact absurd h'.symm hne
+          · exact h'
+        · have := hrest f' hf'
+          unfold RField.depth at this
+          rcases h' with h' | h'
+          · rw [← h']; exact this
+          · omega
+      · simp only [hdep, Bool.false_eq_true, if_false] at hsel
+        cases hsel
+  · rintro ⟨hix, hw⟩
+    obtain ⟨f, hf, hfi⟩ := hD ix hix
+    have hfi : f.index = ix := by
+      rcases hfi with hfi | hfi
+      · exact hfi
+      · exfalso
+        have := hw f.index (hA f hf) (by intro h; rw [h] at hfi; exact Nat.lt_irrefl _ hfi)
+        omega
+    have hother : ∀ x ∈ fbs, x ≠ f → f.depth < x.depth := by
+      intro x hx hne
+      have hxi : x.index ≠ ix := by
+        intro h
+        exact hne (nodup_map_inj (·.index) hND hx hf (h.trans hfi.symm))
+      have := hw x.index (hA x hx) hxi
+      unfold RField.depth
+      rw [hfi]; exact this
+    match fbs, hf, hother, hND, hS with
+    | [a], hf, _, _, _ =>
+      rw [List.mem_singleton.mp hf] at hfi
+      exact ⟨a, rfl, hfi⟩
+    | a :: b :: t, hf, hother, hND, hS =>
+      have hS1 := List.pairwise_cons.mp hS
+      have haf : a = f := by
+        by_cases h : a = f
+        · exact h
+        · exfalso
+          have h1 := hother a (List.mem_cons_self ..) h
+          rcases List.mem_cons.mp hf with rfl | hf'
+          · exact h rfl
+          · have := hS1.1 f hf'; omega
+      subst haf
+      have hba : b ≠ a := by
+        intro h
+        rw [List.map_cons, List.nodup_cons] at hND
+        exact hND.1 (List.mem_map.mpr ⟨b, List.mem_cons_self .., by rw [h]⟩)
+      have hlt := hother b (List.mem_cons_of_mem _ (List.mem_cons_self ..)) hba
+      have hdep : (a.depth != b.depth) = true := by simp; omega
+      exact ⟨a, by simp [hdep], hfi⟩
 
 /-! ### The hypothesis `NoDupEmbed` cannot be dropped: the known finding `dup-embed-kept` -/
 
@@ -124,6 +293,45 @@ theorem dup_embed_counterexample :
   have hb := hw ⟨[1, 0, 0, 0], optsX⟩ hB rfl (by decide)
   unfold Beats at hb
   simp [Cand.depth, Cand.hasName, optsX] at hb
+
+/-! ### The hypotheses of soundness/completeness are satisfiable -/
+
+def tagged (n : Bytes) (nm : Bytes) : FieldDecl := { goName := n, hasTag := true, name := some nm }
+/-- `type L struct{V int}; type R struct{W int "json:\"V\""}; type Root struct{L; R}` -/
+def tieGraph : Graph := [[emb [0x4C] 1, emb [0x52] 2], [leaf [0x56]], [tagged [0x57] [0x56]]]
+
+theorem tie_fields {s i : Nat} {d : FieldDecl} (h : (tieGraph.fieldsOf s)[i]? = some d) :
+    (s = 0 ∧ i = 0 ∧ d = emb [0x4C] 1) ∨ (s = 0 ∧ i = 1 ∧ d = emb [0x52] 2) ∨
+    (s = 1 ∧ i = 0 ∧ d = leaf [0x56]) ∨ (s = 2 ∧ i = 0 ∧ d = tagged [0x57] [0x56]) := by
+  match s, i with
+  | 0, 0 => simp [Graph.fieldsOf, tieGraph] at h; simp [h]
+  | 0, 1 => simp [Graph.fieldsOf, tieGraph] at h; simp [h]
+  | 0, i + 2 => simp [Graph.fieldsOf, tieGraph] at h
+  | 1, 0 => simp [Graph.fieldsOf, tieGraph] at h; simp [h]
+  | 1, i + 1 => simp [Graph.fieldsOf, tieGraph] at h
+  | 2, 0 => simp [Graph.fieldsOf, tieGraph] at h; simp [h]
+  | 2, i + 1 => simp [Graph.fieldsOf, tieGraph] at h
+  | s + 3, i => simp [Graph.fieldsOf, tieGraph] at h
+
+theorem tie_reach_root {p : List Nat} {s : StructId} (h : Reach tieGraph 0 p s) (hs : s = 0) : p = [] := by
+  cases h with
+  | root => rfl
+  | step hr hf hk =>
+    exfalso
+    subst hs
+    rcases tie_fields hf with ⟨_, _, rfl⟩ | ⟨_, _, rfl⟩ | ⟨_, _, rfl⟩ | ⟨_, _, rfl⟩ <;> simp [kindOf, emb, leaf, tagged, TypeRef.structId?] at hk
+
+/-- The hypotheses of `flatten_sound` / `flatten_complete` are satisfiable by a graph with a tie broken by an explicit name. -/
+example : (flatten tieGraph 0).err = none ∧ NoDupEmbed tieGraph 0 := by
+  refine ⟨by decide, ?_⟩
+  intro p q s hp hq _ _ ⟨i, d, t, hf, hk⟩
+  have hs : s = 0 := by
+    rcases tie_fields hf with ⟨h, _, _⟩ | ⟨h, _, _⟩ | ⟨_, _, rfl⟩ | ⟨_, _, rfl⟩
+    · exact h
+    · exact h
+    · simp [kindOf, leaf] at hk
+    · simp [kindOf, tagged] at hk
+  rw [tie_reach_root hp hs, tie_reach_root hq hs]
 
 /-! ### Lookup -/
 
